@@ -239,10 +239,12 @@ def fit_call(sig, name, est, args, desc, params, expect=(), kw=None, report_kf=F
   try:
     return call('%s/%s' % (sig, name), est.fit, *args, expect=expect, **(kw or {}))
   except Violation as v:
-    if v.sig.endswith('raises-NonPSDError') and name in ('ITML', 'ITML_Supervised') and \
+    collapse = v.sig.endswith('raises-NonPSDError') or \
+        (v.sig.endswith('raises-ValueError') and 'should be symmetric' in v.msg)     # NaN after the collapse
+    if collapse and name in ('ITML', 'ITML_Supervised') and \
         (itml_largescale(name, desc, params) or itml_kappa(name, args, params, kw) > 1e6):
       if report_kf:
-        raise Violation(v.sig + '/largescale', v.msg)
+        raise Violation(v.sig.replace('raises-ValueError', 'raises-NonPSDError') + '/largescale', v.msg)
       raise Discard(KF_ITML)
     raise
 
